@@ -173,7 +173,7 @@ def rule_orphan_split(ctx, crate, rule="R-ORPHAN-SPLIT"):
     b = K.find_one(ctx, crate, rule, r"<draw_target::DrawStateWrapper<'_> as std::ops::Drop>::drop")
     if not b:
         return
-    drains = b.calls(r"std::vec::Vec::<T, A>::drain")
+    drains = [c for c in b.calls(r"std::vec::Vec::<T, A>::drain", r"std::mem::take", r"std::mem::replace") if b.slice_args(c, [0], through_calls=False).has_field("lines")]
     ctx.check(bool(drains), rule, "drains-lines", b.name, K.fn_loc(b), "member lines are drained (moved) before being split",
               "member lines are not drained: text lines stay in the member's draw state and repaint", cfg)
     pushes = b.calls(r"std::vec::Vec::<T, A>::push")
